@@ -142,6 +142,9 @@ func (obj *Hmm) ImportConfig(config ConfigDistribution, t ScalarType) error {
   if err := obj.Hmm.ImportConfig(config, t); err != nil {
     return err
   }
+  if len(config.Distributions) != obj.NEDists() {
+    return fmt.Errorf("invalid config file: invalid number of distributions")
+  }
 
   distributions := make([]ScalarPdf, len(config.Distributions))
   for i := 0; i < len(config.Distributions); i++ {
